@@ -227,6 +227,11 @@ func tryToGenerateAddress(acceptablePrefixes, ignorePrefixes []netip.Prefix, max
 			return nil, 0, err
 		}
 
+		// Skip if address is not a mycoria address at all.
+		if !BaseNetPrefix.Contains(generatedIP) {
+			continue
+		}
+
 		// Skip if address is in internal scope.
 		if InternalPrefix.Contains(generatedIP) {
 			return nil, 0, nil
